@@ -121,6 +121,10 @@ func runC13(c *Ctx) {
 	r.Rule("R8-result-before-errcheck", "in the session stores, persistence, session encoding and encryption code a fallible call's result is dereferenced only behind its err==nil edge (damaged stored data is an error, not a crash)", 8)
 	r.Rule("R11-store-wrappers-delegate", "ClearSessionCookie, SaveSession and LoadCookiedSession answer with the result of the store call made on that path, on every path (round 7)", 3)
 	runStoreWrappersDelegate(c, "R11-store-wrappers-delegate")
+	r.Rule("R12-health-check-claims-own-paths-only", "the ping middleware, which runs before the readiness check, claims a request only on a set hit of its own escaped path or User-Agent, verbatim (round 8)", 1)
+	runOwnEndpointKeyVerbatim(c, "R12-health-check-claims-own-paths-only")
+	r.Rule("R13-no-cookie-sentinel-only-from-request", "decodeTicketFromRequest hands back http.ErrNoCookie only as req.Cookie's own error (shared with C11.R11, round 8)", 1)
+	runNoCookieSentinelOnlyFromRequest(c, "R13-no-cookie-sentinel-only-from-request")
 	r.Rule("R10-value-or-error", "a store/decoding function whose caller dereferences the result after checking only the error never returns (nil, nil): empty or truncated stored data is an error, not a missing value", 3)
 	r.Rule("R9-single-answer", "in every handler of the proxy an error answer (ErrorPage, http.Error, errorJSON) is final: no status, redirect, page or upstream hand-off follows it on any path", 8)
 	r.Rule("R5-decrypt-bounds", "every Cipher.Decrypt slices its input only under a length guard for the same bound", 3)
